@@ -19,6 +19,8 @@ RULE = (
     "single conversion: same number of lines, read names in input order, columns 1-4 and 10-12 and all optional fields except "
     "cg byte-identical. Non-trivial = file with >=2 records of which >=1 has >=2 nodes and a merged interval / strand flip / "
     "separated haplotype segments / >=3 reference nodes / revisit. Distinct by SHA-1 of the case."
+    " Later additions: the same as C01 (unlinked reference gaps, unusual segment and contig names, cs:Z/MD:Z "
+    "fields, other record types in the graph file)."
 )
 ASSUMPTIONS = ["read names contain no space here (the name-truncation exception is exercised in C16)"]
 
